@@ -31,6 +31,7 @@ func main() {
 	verif := flag.String("verif", "/verif", "verif root (evidence, known findings)")
 	replay := flag.String("replay", "", "replay file: re-evaluate exactly that rule instance")
 	overlay := flag.String("overlay", "", "JSON file {repo path: replacement file path} (self-tests only)")
+	patch := flag.String("patch", "", "unified diff evaluated through an overlay, /repo itself is not touched (seeded-change testing only; writes no evidence)")
 	warm := flag.Bool("warm", false, "only load the program (warms the build cache)")
 	dump := flag.String("dump", "", "debug: print SSA of functions whose name contains this string")
 	selftest := flag.Bool("selftest", false, "run the both-ways self-test for -prop (mutants + benign edits)")
@@ -81,6 +82,14 @@ func main() {
 			}
 			ov[k] = c
 		}
+	}
+	if *patch != "" {
+		pov, err := patchOverlay(*repo, *patch, false)
+		if err != nil {
+			fmt.Println("PATCH-DOES-NOT-APPLY", err)
+			os.Exit(2)
+		}
+		ov = pov
 	}
 	p, err := loadProgram(*repo, ov, false)
 	if err != nil {
